@@ -3,6 +3,7 @@ mod c01;
 mod c02;
 mod c09;
 mod c06;
+mod c15;
 
 fn main() {
     std::panic::set_hook(Box::new(|_| {}));
@@ -25,6 +26,8 @@ fn main() {
         "c09-record" => c09::record(rest),
         "c06-replay" => c06::replay(rest),
         "c06-record" => c06::record(rest),
+        "c15-replay" => c15::replay(rest),
+        "c15-record" => c15::record(rest),
         x => {
             eprintln!("unknown subcommand {}", x);
             std::process::exit(2);
